@@ -33,7 +33,7 @@ EXPLANATION = (
     "batch's row index by (batch number x requested chunk size) so the row "
     "index continues across chunks like the text reader's; both row "
     "Also: every worker-count parameter is only handed on as a worker count (who-may-use rule, shared with C08). "
-    "iterators of merge_sort traverse every chunk completely. NOT decided: "
+    "iterators of merge_sort traverse every chunk completely. Also: the k-way merge selection and loop (shared with C14a) and the fold/chunk bookkeeping of _predict (shared with C02b/d) are clauses of this property. NOT decided: "
     "floating-point summation differences, estimator thread-safety.")
 TECHNIQUE = ("parallel-effect analysis (mutated-parameter summaries + "
              "per-task distinctness) + CFG must-pass-through + constant "
@@ -67,6 +67,16 @@ def run(ctx):
     for q in ("mokapot.utils.csv_row_iterator",
               "mokapot.utils.parquet_row_iterator"):
         _row_iterator(ctx, ctx.prog.func(q))
+    # the merge of the sorted chunk files must be an exact k-way merge: with
+    # any slip in the selection the merged order - and with it every result
+    # file - depends on how the rows were cut into chunks (shared with C14a)
+    from .c14 import _get_next_row, _merge_sort
+    _get_next_row(ctx, ctx.prog.func("mokapot.utils.get_next_row"))
+    _merge_sort(ctx, ctx.prog.func("mokapot.utils.merge_sort"))
+    # prediction chunks: each chunk gets the matching slice of the fold
+    # vector, whatever the prediction chunk size (shared with C02b/d)
+    from .c02 import _predict
+    _predict(ctx, ctx.prog.func("mokapot.brew._predict"))
 
 
 WORKER_PARAMS = ("max_workers", "n_jobs", "num_workers", "workers")
